@@ -25,6 +25,11 @@ type orderSpec struct {
 
 // eventsIn lists the tagged events of node n in source order
 func (t *translator) eventsIn(f *fn, n ast.Node, spec orderSpec) []string {
+	return t.eventsInNodes(f, []ast.Node{n}, spec)
+}
+
+// eventsInNodes: the tagged events of the nodes taken in order; deferred ones come last
+func (t *translator) eventsInNodes(f *fn, nodes []ast.Node, spec orderSpec) []string {
 	c := &fctx{t: t, p: f.pkg, f: f}
 	var out []string
 	var deferred []string
@@ -114,8 +119,58 @@ func (t *translator) eventsIn(f *fn, n ast.Node, spec orderSpec) []string {
 			return true
 		})
 	}
-	visit(n)
+	for _, n := range nodes {
+		visit(n)
+	}
 	return append(out, deferred...)
+}
+
+// publishPath lists the statements executed on the way through list that performs the publication: an if whose body
+// (or else part) publishes is entered, an if that does not is skipped (it is a guard that returns early or the other
+// case), every other statement is taken. Both shapes of the same logic - `if new { create } else { refresh }` and
+// `if !new { refresh; return }; create` - give the same path.
+func (t *translator) publishPath(f *fn, list []ast.Stmt, spec orderSpec) []ast.Node {
+	has := func(n ast.Node) bool {
+		if n == nil {
+			return false
+		}
+		for _, e := range t.eventsIn(f, n, spec) {
+			if e == spec.publishTag {
+				return true
+			}
+		}
+		return false
+	}
+	var out []ast.Node
+	for _, st := range list {
+		is, ok := st.(*ast.IfStmt)
+		if !ok {
+			out = append(out, st)
+			continue
+		}
+		switch {
+		case has(is.Body):
+			out = append(out, t.publishPath(f, is.Body.List, spec)...)
+		case has(is.Else):
+			if blk, ok := is.Else.(*ast.BlockStmt); ok {
+				out = append(out, t.publishPath(f, blk.List, spec)...)
+			} else {
+				out = append(out, t.publishPath(f, []ast.Stmt{is.Else}, spec)...)
+			}
+		case is.Else == nil && !endsInReturn(is.Body):
+			// a conditional step on the path (e.g. "if the handler is set, call it")
+			out = append(out, is)
+		}
+	}
+	return out
+}
+
+func endsInReturn(b *ast.BlockStmt) bool {
+	if b == nil || len(b.List) == 0 {
+		return false
+	}
+	_, ok := b.List[len(b.List)-1].(*ast.ReturnStmt)
+	return ok
 }
 
 func (t *translator) fnNamed(name string) *fn {
@@ -193,22 +248,10 @@ func (t *translator) orders() (string, map[string][]string, error) {
 		calls:      map[string]string{"allocation.Allocation.AddPermission": "CAddPerm"},
 		lockKey:    "allocation.Allocation.channelBindingsLock", lockTag: "CLock", unlockTag: "CUnlock",
 	}
-	var branch ast.Node
-	ast.Inspect(ac.body, func(n ast.Node) bool {
-		if is, ok := n.(*ast.IfStmt); ok {
-			evs := t.eventsIn(ac, is.Body, cspec)
-			for _, e := range evs {
-				if e == "CPublish" {
-					branch = is.Body
-				}
-			}
-		}
-		return true
-	})
-	if branch == nil {
-		return "", nil, fmt.Errorf("AddChannelBind: the branch that publishes the channel was not found")
+	if n := len(t.eventsIn(ac, ac.body, orderSpec{publishField: cspec.publishField, publishTag: cspec.publishTag})); n != 1 {
+		return "", nil, fmt.Errorf("AddChannelBind: expected exactly one statement that publishes the channel, found %d", n)
 	}
-	ce := t.eventsIn(ac, branch, cspec)
+	ce := t.eventsInNodes(ac, t.publishPath(ac, ac.body.List, cspec), cspec)
 	if err := once(ce, "CPublish", "CArm", "CCallback", "CAddPerm"); err != nil {
 		return "", nil, fmt.Errorf("AddChannelBind: %w", err)
 	}
